@@ -129,6 +129,31 @@ func main() {
 		os.Exit(runDumpFn(os.Args[2], os.Args[3]))
 	case "replay":
 		os.Exit(runReplay(os.Args[2:]))
+	case "sweep-baseline":
+		// maintenance: the functions the zero-annotation sweeps cover on this tree (default contracts),
+		// per property; committed as sweep_baseline.json and never written by a check
+		out := map[string][]string{}
+		for id, ps := range props {
+			if ps.Sweep == nil {
+				continue
+			}
+			p, err := loadProgram(repoDir, ps.Patterns, nil)
+			if err != nil {
+				fmt.Fprintln(os.Stderr, err)
+				os.Exit(2)
+			}
+			if ps.Setup != nil {
+				ps.Setup(p)
+			}
+			for _, c := range ps.Sweep(p) {
+				if c.Default {
+					out[id] = append(out[id], c.FuncName)
+				}
+			}
+			sort.Strings(out[id])
+		}
+		b, _ := json.MarshalIndent(out, "", " ")
+		fmt.Println(string(b))
 	case "params":
 		// maintenance: print "file<TAB>line<TAB>function<TAB>p1, p2, ..." for every verified contract
 		seen := map[string]bool{}
@@ -536,7 +561,27 @@ func (pc *propCheck) report(t0 time.Time) int {
 	pc.models = map[*Obligation]string{}
 	var undecided []string
 	nScenarioViol := 0
+	nUndecidedObls := 0 // failing obligations of undecided functions beyond the first of each
+	baseline := loadSweepBaseline(pc.ID)
+	newFuncReported := map[string]bool{}
 	for _, o := range violations {
+		if c := conOf[o]; c != nil && c.Default && baseline != nil && !baseline[c.FuncName] && !o.MustFail && !o.Cover {
+			// a function that did not exist when the sweeps were last reviewed (an extracted helper, a
+			// new closure) is verified here on its own, for arbitrary arguments, without the
+			// preconditions its callers establish: a failing obligation says that it needs a contract,
+			// not that the code crashes. The scenario pool decides.
+			rr := pc.replayTranslator(o, c)
+			if !rr.Confirmed {
+				if !newFuncReported[c.FuncName] {
+					newFuncReported[c.FuncName] = true
+					fmt.Printf("UNDECIDED: property=%s %s: new function without a contract (not in sweep_baseline.json); %s cannot be discharged for arbitrary arguments — its obligations are not claimed in this run\n", pc.ID, c.FuncName, o.Name)
+					undecided = append(undecided, c.FuncName+": new function without a contract")
+					nUndecidedObls--
+				}
+				nUndecidedObls++
+				continue
+			}
+		}
 		if o.Kind == "engine" {
 			// the function is outside the verifier's subset (or its contract no longer types) after a
 			// change: the obligations cannot be generated, which is not evidence of a violation. The
@@ -576,7 +621,8 @@ func (pc *propCheck) report(t0 time.Time) int {
 			}
 			if !rr.Tried && conOf[o] != nil && strings.HasSuffix(conOf[o].Pkg, "/cmd/test_gen") {
 				if pc.tgReplay == nil {
-					x := pc.replayTestGen()
+					_, isKnown := kfOpen[o.Name]
+					x := pc.replayTestGenK(isKnown)
 					pc.tgReplay = &x
 				}
 				rr = *pc.tgReplay
@@ -724,7 +770,7 @@ func (pc *propCheck) report(t0 time.Time) int {
 		"coverage":    cov,
 		"assumptions": append(notes, pc.ExtraAssumptions...),
 		"wall_s":      round3(time.Since(t0).Seconds()),
-		"violations":  len(violations) - len(undecided) + nScenarioViol,
+		"violations":  len(violations) - len(undecided) - nUndecidedObls + nScenarioViol,
 	}
 	if len(undecided) > 0 {
 		cov["undecided"] = undecided
@@ -733,7 +779,7 @@ func (pc *propCheck) report(t0 time.Time) int {
 	os.MkdirAll(filepath.Join(verifDir, "evidence"), 0o755)
 	os.WriteFile(filepath.Join(verifDir, "evidence", pc.ID+".json"), b, 0o644)
 	fmt.Printf("property %s tier %s: %d obligations, %d discharged, %d vacuity checks, %d known findings, %d violations, %.1fs\n",
-		pc.ID, pc.Tier, nClaimed, nDischarged, nVacuity, len(kfSeen), len(violations)-len(undecided)+nScenarioViol, time.Since(t0).Seconds())
+		pc.ID, pc.Tier, nClaimed, nDischarged, nVacuity, len(kfSeen), len(violations)-len(undecided)-nUndecidedObls+nScenarioViol, time.Since(t0).Seconds())
 	if len(undecided) > 0 {
 		fmt.Printf("property %s: %d function(s) undecided in this tree (outside the verifier's subset; scenario pool passes)\n", pc.ID, len(undecided))
 	}
@@ -910,4 +956,22 @@ func runWitnessCorpus() int {
 	}
 	fmt.Printf("%d witnesses not as expected\n", bad)
 	return 0
+}
+
+// loadSweepBaseline: names of the functions covered by the zero-annotation sweep of a property on
+// the tree the contracts were written for (committed file, read-only); nil if there is none.
+func loadSweepBaseline(id string) map[string]bool {
+	b, err := os.ReadFile(filepath.Join(verifDir, "sweep_baseline.json"))
+	if err != nil {
+		return nil
+	}
+	var m map[string][]string
+	if json.Unmarshal(b, &m) != nil || m[id] == nil {
+		return nil
+	}
+	out := map[string]bool{}
+	for _, n := range m[id] {
+		out[n] = true
+	}
+	return out
 }
